@@ -221,6 +221,29 @@ PROPS["C17"] = dict(
     jobs=[J("TestC17_Verify", 250, 1500, shards=10), J("TestC17_NonBLS", 50, 200, shards=1)],
 )
 
+DKG_RULE = ("one network simulator (harness/sim): protocol in {Feldman-VSS-Qual with one dealer, Joint-Feldman}, n = 2..5 (thorough 7, a few 10), t = 1..n-1, at most t Byzantine participants (the dealer may be one). Honest participants are real library instances behind a recording processor; "
+            "a Byzantine participant is a real instance whose outgoing messages pass through a generated fault grammar per (message type, receiver): honest, omitted, late (next round), duplicated, malformed (empty, bad tag, wrong size, scalar 0 / >= r, vector of wrong size, cleared flag, off-curve, on-curve outside G2, small-order component, identity A_0), "
+            "well-formed but inconsistent (share / vector of another polynomial, share+1, wrong answer value, out-of-range index), plus unsolicited broadcasts at the start of every round (complaints against any dealer, malformed complaints, answers with right or wrong value before or after the complaint, empty, unknown tag, vector again, junk on the private channel, wrong channel). "
+            "The scheduler delivers the (message, receiver) pairs of a round in a generated order (broadcasts of one sender stay ordered per receiver; reactions join the round; every pool is drained before the timeouts; timeouts and End in generated orders). ")
+
+PROPS["C07"] = dict(
+    title="DKG: honest participants agree on the verdict and on consistent keys",
+    rule=DKG_RULE + ("Invariant after End at every honest participant: identical sets of disqualified dealers, identical outcome (all DKG-failure or identical group key and public key shares), private share matches public share, "
+          "(every 5th case, always in thorough) group key and all public shares on one polynomial of degree <= t by Lagrange interpolation in G2 with the oracle, and t+1 honest participants reconstruct a signature valid under the group key. "
+          "Non-trivial = a Byzantine participant performed a non-honest action and the delivery order was not FIFO; distinct by draw-record hash."),
+    assumptions=BLS_ASSUME[:1] + ["the assumptions of the statement: round-synchronous delivery, reliable broadcast, at most t Byzantine participants", "Joint-Feldman: the disqualified set of a participant is read from its Disqualify callbacks; single-dealer protocol: from the End verdict"],
+    jobs=[J("TestC07_Agreement", 400, 2500, shards=16)],
+)
+
+PROPS["C08"] = dict(
+    title="DKG qualification is fair: honest never blamed, bad dealing never accepted",
+    rule=DKG_RULE + ("Invariants: (e) no Disqualify / FlagMisbehavior callback at an honest reporter targets an honest participant; (f) a Byzantine dealer whose vector was omitted, late or malformed (confirmed invalid by the oracle), who attracted more than t distinct complaints before the second timeout, "
+          "or who left an honest complaint unanswered or answered it with a value not matching its vector, is disqualified by every honest participant; (g) plain Feldman VSS: every delivery order of (vector, share, one duplicate of each) x every kind of vector and share: End returns keys iff the first vector is valid (oracle) and the first share is well-formed and matches it, otherwise a DKG-failure error. "
+          "Non-trivial = Byzantine non-honest action and non-FIFO delivery (simulator) / an invalid or inconsistent dealing (plain VSS); distinct by draw-record hash / by construction."),
+    assumptions=BLS_ASSUME[:1] + ["the assumptions of the statement: round-synchronous delivery, reliable broadcast, at most t Byzantine participants"],
+    jobs=[J("TestC08_Fairness", 400, 2500, shards=14), J("TestC08_PlainVSS", 3, 10, shards=4)],
+)
+
 
 import c15_overlay
 import c20_build
